@@ -3,6 +3,7 @@ package main
 import (
 	"bytes"
 	"crypto/elliptic"
+	"fmt"
 	"math/big"
 
 	"github.com/cloudflare/pat-go/tokens/type3"
@@ -161,6 +162,42 @@ func runC08(c0 *h.Ctx) {
 						c.Violation("distinct clients or origins with distinct index keys yield distinct IDs", det)
 					}
 					seenIdx[string(idx)] = who
+				}
+			}
+			// two requests of ONE client in flight at the attester: both verified first, then both finalized (each with its
+			// own blind), in both orders — the ID must not depend on which request the attester saw last
+			for oi := 0; oi < 2; oi++ {
+				o := origins[oi]
+				_, wantIdx := c08Expect(c, secret, o.indexKey)
+				b1, b2 := rnd(c, 48), rnd(c, 48)
+				s1, e1 := env.request(client, rnd(c, 9), rnd(c, 32), b1, o.name)
+				s2, e2 := env.request(client, rnd(c, 9), rnd(c, 32), b2, o.name)
+				if e1 != nil || e2 != nil {
+					continue
+				}
+				_, k1, e3 := env.issuer.Evaluate(s1.Request().Marshal())
+				_, k2, e4 := env.issuer.Evaluate(s2.Request().Marshal())
+				if e3 != nil || e4 != nil {
+					continue
+				}
+				for order := 0; order < 2; order++ {
+					a := type3.NewRateLimitedAttester(newRecCache())
+					anon := rnd(c, 32)
+					v1 := a.VerifyRequest(*s1.Request(), b1, s1.ClientKey(), anon)
+					v2 := a.VerifyRequest(*s2.Request(), b2, s2.ClientKey(), anon)
+					var i1, i2 []byte
+					var f1, f2 error
+					if order == 0 {
+						i1, f1 = a.FinalizeIndex(s1.ClientKey(), b1, k1, anon)
+						i2, f2 = a.FinalizeIndex(s2.ClientKey(), b2, k2, anon)
+					} else {
+						i2, f2 = a.FinalizeIndex(s2.ClientKey(), b2, k2, anon)
+						i1, f1 = a.FinalizeIndex(s1.ClientKey(), b1, k1, anon)
+					}
+					c.Count("index:two-requests-in-flight", 1, fmt.Sprint(ci, oi, order))
+					if v1 != nil || v2 != nil || f1 != nil || f2 != nil || !bytes.Equal(i1, wantIdx) || !bytes.Equal(i2, wantIdx) {
+						c.Violation("the ID is identical across all requests of the client for the origin, also when several are in flight at the attester (each finalized with its own blind)", map[string]any{"client_secret": h.Hex(secret), "origin": o.name, "order": order, "id1": h.Hex(i1), "id2": h.Hex(i2), "want": h.Hex(wantIdx)})
+					}
 				}
 			}
 		}
